@@ -79,6 +79,151 @@ fn validate_extra_fields(ctx: &mut Ctx) {
 }
 
 // ---------------------------------------------------------------------------
+// FFT-friendliness of EXTENSION fields: `QuadExtField` / `CubicExtField` implement `FftField` by handing down the
+// parameters of the base prime field, so radix-2 and mixed-radix domains are constructible over them too.  For toy
+// towers over prime fields that declare a small subgroup (base != adicity, so a swapped constant shows): the
+// inherited constants, the exact order of `get_root_of_unity(n)` for every n up to 2 * (p - 1) + 2, the size chosen
+// by the three domain kinds, and transforms of unit vectors against direct evaluation at the domain elements
+// (computed with the tower's own multiplication, which C02 checks against the schoolbook model).
+// ---------------------------------------------------------------------------
+mod ext_towers {
+    use super::extra_fields::D401;
+    use algebra_mc::toy::gen_fields::D97;
+    use ark_ff::fields::{Fp2, Fp2Config, Fp3, Fp3Config};
+    use ark_ff::{AdditiveGroup, Field, MontFp};
+    pub struct Q97Cfg;
+    impl Fp2Config for Q97Cfg {
+        type Fp = D97;
+        /// 5 generates F_97^*
+        const NONRESIDUE: D97 = MontFp!("5");
+        const FROBENIUS_COEFF_FP2_C1: &'static [D97] = &[MontFp!("1"), MontFp!("96")];
+    }
+    pub type Q97 = Fp2<Q97Cfg>;
+    pub struct Q401Cfg;
+    impl Fp2Config for Q401Cfg {
+        type Fp = D401;
+        /// 3 generates F_401^*
+        const NONRESIDUE: D401 = MontFp!("3");
+        const FROBENIUS_COEFF_FP2_C1: &'static [D401] = &[MontFp!("1"), MontFp!("400")];
+    }
+    pub type Q401 = Fp2<Q401Cfg>;
+    pub struct C97Cfg;
+    impl Fp3Config for C97Cfg {
+        type Fp = D97;
+        /// 5 generates F_97^* and 3 | 96, so 5 is not a cube
+        const NONRESIDUE: D97 = MontFp!("5");
+        const TWO_ADICITY: u32 = 5;
+        const TRACE_MINUS_ONE_DIV_TWO: &'static [u64] = &[(97 * 97 * 97 - 1) / 32 / 2];
+        const QUADRATIC_NONRESIDUE_TO_T: Fp3<Self> = Fp3::new(D97::ZERO, D97::ZERO, D97::ZERO);
+        // 5^((97-1)/3) = 35, 5^(2(97-1)/3) = 61 mod 97
+        const FROBENIUS_COEFF_FP3_C1: &'static [D97] = &[MontFp!("1"), MontFp!("35"), MontFp!("61")];
+        const FROBENIUS_COEFF_FP3_C2: &'static [D97] = &[MontFp!("1"), MontFp!("61"), MontFp!("35")];
+    }
+    pub type C97 = Fp3<C97Cfg>;
+    pub fn embed2<P: Fp2Config>(x: P::Fp) -> Fp2<P> {
+        Fp2::new(x, P::Fp::ZERO)
+    }
+    pub fn embed3<P: Fp3Config>(x: P::Fp) -> Fp3<P> {
+        Fp3::new(x, P::Fp::ZERO, P::Fp::ZERO)
+    }
+    pub fn _unused<F: Field>() {}
+}
+
+fn sweep_ext_fft<T: FftField, B: PrimeField + FftField>(ctx: &mut Ctx, name: &str, embed: fn(B) -> T) {
+    let p = B::MODULUS.as_ref()[0];
+    let (s, q, k) = (B::TWO_ADICITY, B::SMALL_SUBGROUP_BASE.expect("toy base declares a small subgroup") as u64, B::SMALL_SUBGROUP_BASE_ADICITY.unwrap());
+    // every n = 2^i q^j
+    let mut shaped: Vec<u64> = Vec::new();
+    for i in 0..=s {
+        for j in 0..=k {
+            shaped.push((1u64 << i) * q.pow(j));
+        }
+    }
+    shaped.sort();
+    let r2: Vec<u64> = (0..=s).map(|i| 1u64 << i).collect();
+    let top = 2 * (p - 1) + 2;
+    ctx.sweep(&format!("ext_fft/{name}"), top + 1, |n, loc| {
+        if n == 0 {
+            // inherited parameters
+            loc.class("ext_fft:inherited_constants");
+            loc.check_at(
+                "constants",
+                T::TWO_ADICITY == s && T::SMALL_SUBGROUP_BASE == B::SMALL_SUBGROUP_BASE && T::SMALL_SUBGROUP_BASE_ADICITY == B::SMALL_SUBGROUP_BASE_ADICITY,
+                || {
+                    format!(
+                        "{name}: TWO_ADICITY {} SMALL_SUBGROUP_BASE {:?} SMALL_SUBGROUP_BASE_ADICITY {:?}; base prime field: {s} {:?} {:?}",
+                        T::TWO_ADICITY, T::SMALL_SUBGROUP_BASE, T::SMALL_SUBGROUP_BASE_ADICITY, B::SMALL_SUBGROUP_BASE, B::SMALL_SUBGROUP_BASE_ADICITY
+                    )
+                },
+            );
+            loc.check_at("constants", T::TWO_ADIC_ROOT_OF_UNITY == embed(B::TWO_ADIC_ROOT_OF_UNITY), || format!("{name}: TWO_ADIC_ROOT_OF_UNITY is not the base field's"));
+            loc.check_at("constants", T::LARGE_SUBGROUP_ROOT_OF_UNITY == B::LARGE_SUBGROUP_ROOT_OF_UNITY.map(embed), || format!("{name}: LARGE_SUBGROUP_ROOT_OF_UNITY is not the base field's"));
+            return;
+        }
+        let is_shaped = shaped.contains(&n);
+        loc.class_if(is_shaped && n % q == 0, "ext_fft:size_divisible_by_q");
+        loc.class_if(!is_shaped, "ext_fft:no_subgroup_of_the_declared_shape");
+        // exact order of the root
+        let root = T::get_root_of_unity(n);
+        match root {
+            Some(r) => {
+                let mut ok = r.pow([n]) == T::ONE;
+                for pr in (2..=n).filter(|d| n % d == 0 && (2..*d).all(|e| d % e != 0)) {
+                    ok &= r.pow([n / pr]) != T::ONE;
+                }
+                // a root of exact order n is acceptable also outside the declared shape (C07 only demands the order)
+                loc.check_at("get_root_of_unity", ok, || format!("{name}::get_root_of_unity({n}) does not have exact order {n}"));
+            },
+            None => {
+                loc.check_at("get_root_of_unity", !is_shaped, || format!("{name}::get_root_of_unity({n}) = None although the base field has a subgroup of order {n} of the declared shape"));
+            },
+        }
+        // domains: size and generator order, unit-vector transforms against direct evaluation
+        let want_mixed = shaped.iter().copied().find(|x| *x >= n);
+        let want_r2 = r2.iter().copied().find(|x| *x >= n);
+        let check_domain = |loc: &mut Loc, kind: &str, size: Option<u64>, want: &[Option<u64>], gen: Option<T>, elems: Option<Vec<T>>, fft_e1: Option<Vec<T>>| {
+            loc.check_at("new", want.contains(&size), || format!("{name} {kind}::new({n}): size {size:?}, minimal sizes of the admissible kinds {want:?}"));
+            if let (Some(sz), Some(g), Some(el), Some(f1)) = (size, gen, elems, fft_e1) {
+                let mut ok = g.pow([sz]) == T::ONE;
+                for pr in [2u64, q] {
+                    if sz % pr == 0 {
+                        ok &= g.pow([sz / pr]) != T::ONE;
+                    }
+                }
+                loc.check_at("group_gen", ok, || format!("{name} {kind}::new({n}): group_gen does not have exact order {sz}"));
+                let mut cur = T::ONE;
+                let mut okel = el.len() as u64 == sz;
+                for e in &el {
+                    okel &= *e == cur;
+                    cur *= g;
+                }
+                loc.check_at("elements", okel, || format!("{name} {kind}::new({n}): elements() is not 1, g, g^2, .."));
+                // fft of X (coefficients [0, 1]) = the domain elements themselves
+                if sz >= 2 {
+                    loc.check_at("fft", f1 == el, || format!("{name} {kind} size {sz}: fft([0,1]) is not the list of domain elements"));
+                }
+            }
+        };
+        if n <= p + 1 {
+            let d = MixedRadixEvaluationDomain::<T>::new(n as usize);
+            check_domain(loc, "mixed", d.map(|d| d.size() as u64), &[want_mixed], d.map(|d| d.group_gen()), d.map(|d| d.elements().collect()), d.map(|d| d.fft(&[T::ZERO, T::ONE])));
+            let d = Radix2EvaluationDomain::<T>::new(n as usize);
+            check_domain(loc, "radix2", d.map(|d| d.size() as u64), &[want_r2], d.map(|d| d.group_gen()), d.map(|d| d.elements().collect()), d.map(|d| d.fft(&[T::ZERO, T::ONE])));
+            let d = GeneralEvaluationDomain::<T>::new(n as usize);
+            check_domain(loc, "general", d.map(|d| d.size() as u64), &[want_r2.or(want_mixed), want_mixed], d.map(|d| d.group_gen()), d.map(|d| d.elements().collect()), d.map(|d| d.fft(&[T::ZERO, T::ONE])));
+            // round trip of a dense vector of full length
+            if let Some(d) = MixedRadixEvaluationDomain::<T>::new(n as usize) {
+                let v: Vec<T> = (0..d.size() as u64).map(|i| embed(B::from(i * i + 3))).collect();
+                let e = d.fft(&v);
+                let direct: Vec<T> = d.elements().map(|x| v.iter().rev().fold(T::ZERO, |acc, c| acc * x + c)).collect();
+                loc.check_at("fft", e == direct, || format!("{name} mixed size {}: fft != Horner evaluation at the domain elements", d.size()));
+                loc.check_at("ifft", d.ifft(&e) == v, || format!("{name} mixed size {}: ifft(fft(v)) != v", d.size()));
+            }
+        }
+    });
+}
+
+// ---------------------------------------------------------------------------
 // the harness's copies of the library's transform thresholds (they only LABEL cases) are compared with the
 // constants in the library source the harness is built against; a stale copy is a machinery error
 // ---------------------------------------------------------------------------
@@ -1541,6 +1686,9 @@ fn main() {
         "lagrange:tau_in_domain",
         "lagrange:tau_in_coset",
         "new:none_expected",
+        "ext_fft:inherited_constants",
+        "ext_fft:size_divisible_by_q",
+        "ext_fft:no_subgroup_of_the_declared_shape",
         "new:n>2^63",
         "new:n=size+1",
         "fft:degree_aware_len_not_pow2",
@@ -1604,6 +1752,12 @@ fn main() {
         run_field(&mut ctx, &env);
         let env = toy_with::<D197>(&mut ctx, "D197", sb);
         run_field(&mut ctx, &env);
+    }
+
+    if wanted(&ctx, "ext_fft") {
+        sweep_ext_fft::<ext_towers::Q97, tf::D97>(&mut ctx, "Fp2(D97,u^2=5)", ext_towers::embed2::<ext_towers::Q97Cfg>);
+        sweep_ext_fft::<ext_towers::Q401, D401>(&mut ctx, "Fp2(D401,u^2=3)", ext_towers::embed2::<ext_towers::Q401Cfg>);
+        sweep_ext_fft::<ext_towers::C97, tf::D97>(&mut ctx, "Fp3(D97,u^3=5)", ext_towers::embed3::<ext_towers::C97Cfg>);
     }
 
     macro_rules! shipped_field {
